@@ -227,13 +227,17 @@ func (reg *ResourceRegistry) GetSelectedVersions() (versions map[string]string) 
 	reg.RLock()
 	defer reg.RUnlock()
 
+	versions = make(map[string]string, len(reg.resources))
 	for _, res := range reg.resources {
 		res.Lock()
-		versions[res.Identifier] = res.SelectedVersion.VersionNumber
+		// Resources without a selected version (yet) are left out.
+		if res.SelectedVersion != nil {
+			versions[res.Identifier] = res.SelectedVersion.VersionNumber
+		}
 		res.Unlock()
 	}
 
-	return
+	return versions
 }
 
 // Purge deletes old updates, retaining a certain amount, specified by the keep
